@@ -8,6 +8,7 @@ Obligation: entry[i, j] == LabelMeaning(label_j)(row_i) as a polynomial identity
 import itertools
 
 import numpy as np
+import pandas as pd
 
 from vf import core, gen, pipe, symx
 
@@ -168,6 +169,38 @@ def harness(env, case):
         env.fail("labels/columns cannot be put together: " + type(e).__name__, {"exc": str(e)[:200], "site": core.repo_site(e)})
 
 
+def concrete_integer_columns(rep):
+    """columns of small integer dtypes: a label joining pieces with ':' is their product over the integers
+    (plain API, exact integer comparison; the symbolic cells of the other cases are reals)"""
+    from formulae import design_matrices
+
+    ints = {"a": [10, 20, 40, 64, 100, 127], "d": [2, 7, 10, 12, 100, 127], "e": [3, 1, 5, 2, 90, 127]}
+    n = 0
+    for dt in ("int8", "uint8", "int16", "int32", "int64"):
+        df = pd.DataFrame({k: np.array(v, dtype=dt) for k, v in ints.items()})
+        df["y"] = [0.5, 1.5, 2.5, 3.5, 4.5, 5.5]
+        df["g"] = list("ababab")
+        for f in ("y ~ 0 + a:d", "y ~ a*d", "y ~ 0 + a:d:e", "y ~ 0 + a:d:g", "y ~ 0 + g:a:d", "y ~ (0 + a:d|g)"):
+            n += 1
+            try:
+                dm = design_matrices(f, df)
+            except Exception as e:  # noqa
+                rep.violations.append({"label": "labels/columns cannot be put together: " + type(e).__name__, "signature": {"what": "integer columns", "formula": f, "dtype": dt, "exc": type(e).__name__},
+                                       "replay": {"formula": f, "dtype": dt}, "reproduced": True, "detail": f"{f} on {dt}: {type(e).__name__}: {e}"[:200]})
+                continue
+            rows = [{k: int(df[k].iloc[i]) if k in ints else df[k].iloc[i] for k in ("a", "d", "e", "g")} for i in range(len(df))]
+            for what, M, labels in ([("common", dm.common.design_matrix, [str(c) for c in dm.common.as_dataframe().columns])] if dm.common is not None else []) + \
+                    [("group", dm.group[name], list(t.labels)) for name, t in (dm.group.terms.items() if dm.group is not None else [])]:
+                E = gen.expected_matrix(labels, rows)
+                X = np.asarray(M)
+                X = X[:, None] if X.ndim == 1 else X
+                if X.shape != E.shape or any(int(X[i, j]) != int(E[i, j]) for i in range(E.shape[0]) for j in range(E.shape[1])):
+                    rep.violations.append({"label": f"{what}: entry == LabelMeaning(label)", "signature": {"what": "integer columns", "formula": f, "dtype": dt},
+                                           "replay": {"formula": f, "dtype": dt, "got": X.tolist(), "want": E.tolist()}, "reproduced": True, "detail": f"{f} on {dt} columns: {X.tolist()[3:5]} instead of {E.tolist()[3:5]}"[:300]})
+                    break
+    rep.extra["concrete_integer_designs"] = n
+
+
 def run(tier, seed):
     rep = core.Report(ID, tier, seed)
     rep.functions = [
@@ -186,6 +219,7 @@ def run(tier, seed):
     rep.assumptions = ["LabelMeaning oracle (vf/gen.py: label_value) written from the C04 statement", "a formula whose design cannot be built (exception) is no design: counted in reach, not a violation of C04"]
     rep.rule = "one case = (formula, categorical flavour, row order) run once on symbolic numeric cells; non-trivial = a design was built and at least one matrix checked"
     pipe.run_cases(rep, "vf.props.c04", "harness", cs)
+    concrete_integer_columns(rep)
     rep.nontrivial = int(rep.reach.get("design built", 0))
     if rep.nontrivial == 0:
         rep.inconclusive.append("vacuous: no design was built")
